@@ -6,10 +6,13 @@ from harness.core import Rng, gz, gq, gnat, gbool, glist, gopt, Dec, num_close
 
 PID = "C09"
 VO = ["theories/Base/Num.vo", "theories/Base/ListX.vo", "theories/Base/Flat.vo",
-      "theories/Reductions/Grid.vo", "theories/Reductions/Grid_proofs.vo"]
+      "theories/Reductions/Grid.vo", "theories/Reductions/Grid_proofs.vo",
+      "theories/Reductions/Moments.vo", "theories/Reductions/Moments_proofs.vo",
+      "theories/Reductions/Reduction.vo", "theories/Reductions/Reduction_proofs.vo",
+      "theories/Reductions/GridSearch.vo", "theories/Reductions/GridSearch_proofs.vo"]
 PROPS_FILES = ["props/C09.v"]
-TRANSLATORS = ["t_grid"]
-REQUIRES = ["From FL Require Import Num ListX Flat Grid."]
+TRANSLATORS = ["t_grid", "t_gridsearch"]
+REQUIRES = ["From FL Require Import Num ListX Flat Grid Moments Reduction GridSearch."]
 SHARD = 12
 CHUNK = 2
 CASE_TIMEOUT = 300
@@ -21,26 +24,43 @@ LEVEL_TEXT = ("Proof (Coq): for the `values` rule and budget update regenerated 
               "grid_size >= 2, limit > 0 and a basis whose columns all have their index entries the grid consists of "
               "exactly grid_size pairwise distinct non-negative vectors of L1 norm <= limit (== limit for loss "
               "moments); the selection returns the first index minimising (1-w)*objective + w*max(gamma). "
-              "Tie to the code: translator t_grid (fail closed) + differential run of the Gallina grid against "
-              "GridSearch.lambda_vecs_ entry by entry. Checked on the implementation's own numbers on every "
-              "run (not proved): each predictor minimises objective + lambda.gamma over the enumerated class, "
-              "recorded objective / gamma equal an independent recomputation from the predictor's predictions, "
-              "the loss at best_idx_ is the minimum, predict / predict_proba delegate to predictors_[best_idx_].")
-LEVEL_NOTE = ("Trusted: Coq kernel + vm_compute; translator t_grid; the harness oracles (enumeration of all labelings "
-              "of the distinct feature rows, closed-form weighted cell means for BoundedGroupLoss). The basis model "
-              "(up_cols / bgl_cols) and the start of the n_units search at a floating-point guess are tied by "
-              "correspondence only; best response and recorded values are oracle checks, the proof of the reduction "
-              "identity belongs to C07.")
-TECHNIQUE = ("Coq proof about the grid generator and the selection rule on source-regenerated rules + differential "
-             "model/implementation run + property oracles on the real GridSearch.fit with an exact learner")
-TRUSTED = ["Coq 8.16.1 kernel and vm_compute", "translators/t_grid.py",
+              "Fit loop (model FL.GridSearch: signed weights of the constraints + objective unless in the span, "
+              "relabel 1[w>0], reweight |w|, DummyClassifier when one label, abstract learner, records, "
+              "losses.index(min(losses)), predict): for every parity moment / ratio / cost pair / non-empty binary "
+              "dataset and every multiplier vector, an exact cost-sensitive learner over a class H yields a recorded "
+              "predictor that minimises objective + lambda.gamma (recorded values) and the Lagrangian over H "
+              "(corollary of C07 cost_sensitive_equiv); for BoundedGroupLoss an exact weighted-loss regressor yields a "
+              "minimiser of lambda.gamma (corollary of C07 loss_identity); recorded objective / gamma are those of the "
+              "recorded predictor; predict delegates to the first arg-min; exhaustive search is an exact learner for "
+              "every finite class. "
+              "Tie to the code: translators t_grid and t_gridsearch (fail closed; relabel / reweight / weight sum / "
+              "trade-off loss / selection expressions regenerated and proved to be the model's, the rest of fit and "
+              "predict compared literally) + differential run of the Gallina grid against GridSearch.lambda_vecs_ "
+              "entry by entry and of the Gallina fit loop (exact per-cell vote / weighted cell means as the learner) "
+              "against objectives_ / gammas_ per grid point and the selected loss value. Also checked on the "
+              "implementation's own numbers on every run: each predictor minimises objective + lambda.gamma over the "
+              "enumerated class, recorded objective / gamma equal an independent recomputation, the loss at best_idx_ "
+              "is the minimum, predict / predict_proba delegate to predictors_[best_idx_].")
+LEVEL_NOTE = ("Trusted: Coq kernel + vm_compute; translators t_grid, t_gridsearch; the harness oracles (enumeration of "
+              "all labelings of the distinct feature rows, closed-form weighted cell means for BoundedGroupLoss). The "
+              "basis model (up_cols / bgl_cols), the start of the n_units search at a floating-point guess, the "
+              "label alignment of the multipliers with the constraint index (align_grid) and the identification of "
+              "harness.learners.ExactLearner / CellMeanRegressor with the Gallina exact_learn / mean_learn are tied by "
+              "correspondence only; that sklearn's DummyClassifier / copy.deepcopy behave as modelled is assumed.")
+TECHNIQUE = ("Coq proof about the grid generator, the fit loop and the selection rule on source-regenerated kernels + "
+             "differential model/implementation run + property oracles on the real GridSearch.fit with an exact learner")
+TRUSTED = ["Coq 8.16.1 kernel and vm_compute", "translators/t_grid.py", "translators/t_gridsearch.py",
            "harness/props/c09.py (generators, oracles, comparison)",
            "harness.learners.ExactLearner / CellMeanRegressor (exact best responses over cell functions)",
-           "pandas sort order of the constraint index (modelled)", "no axioms (Print Assumptions: closed)"]
+           "pandas sort order of the constraint index and label alignment (modelled)",
+           "no axioms (Print Assumptions: closed)"]
 ASSUMPTIONS = ["grid_size >= 2, grid_limit > 0, at least one (event, non-last group) cell present (true dimension "
                ">= 1; otherwise _GridGenerator divides by zero -- outside the property's quantifier)",
                "grid_offset = None, grid = None (the generated grid is used)",
-               "best response is compared by Lagrangian VALUE (ties in the learner's weighted vote are not unique)"]
+               "best response is compared by Lagrangian VALUE (ties in the learner's weighted vote are not unique); "
+               "recorded objective / gamma are compared with the fit-loop model entry by entry unless the model's "
+               "vote margin is 0 at that grid point (then objective + lambda.gamma is compared)",
+               "the best-response theorems assume an exact learner over the class (satisfiable: exhaustive search)"]
 RULE = ("cases: random datasets n <= 14, 2..4 groups (random order of first appearance, empty (event, group) cells "
         "allowed and forced in a share of cases), 2..5 distinct feature rows, the five parity moments with difference "
         "and ratio bounds and BoundedGroupLoss(SquareLoss) with dyadic targets, grid_size 2..60, grid_limit in "
@@ -226,7 +246,8 @@ def impl(case):
            "gamma_index_same": list(est.gammas_.index) == list(idx),
            "gammas": [_fl(est.gammas_[c].values) for c in est.gammas_.columns],
            "objectives": _fl(est.objectives_), "best_idx": int(est.best_idx_),
-           "n_predictors": len(est.predictors_)}
+           "n_predictors": len(est.predictors_),
+           "dummy": [type(p).__name__ == "DummyClassifier" for p in est.predictors_]}
     preds = [np.asarray(p.predict(X)).reshape(-1) for p in est.predictors_]
     res["preds"] = [_fl(p) for p in preds]
     res["predict"] = _fl(np.asarray(est.predict(X)).reshape(-1))
@@ -304,12 +325,35 @@ def term(case, out):
         gammas = glist([glist(g, _fq) for g in out["gammas"]])
     else:
         objs, gammas = "nil", "nil"
+    cw = gq(Fraction(case['constraint_weight']))
+    cells = sorted(set(_xrows(case)))
+    xs = glist([cells.index(t) for t in _xrows(case)], gz)
+    if reg:
+        rows = glist([f"({gq(Fraction(y))}, {gz(g)})" for y, g in zip(case["y"], case["g"])])
+        fit = f"run_loss (Square 0 1) {cw} (({rows}) : list lrow) {xs} gs limit"
+    else:
+        rows = glist([f"(mkRow {gz(y)} {gz(g)} None)" for y, g in zip(case["y"], case["g"])])
+        fit = f"run_cls {KIND[case['moment']]} {gq(_ratio(case))} {cw} {rows} {xs} gs limit"
     return (basis + f"let gs := {gnat(case['grid_size'])} in let limit := {gq(Fraction(case['grid_limit']))} in "
             f"enc_bool (good_basis m cols negs) ++ enc_bool (true_dim_pos negs force) ++ enc_nat m ++ "
             f"enc_opt enc_z (n_units negs force gs) ++ "
             f"enc_opt (enc_list (enc_list enc_q)) (grid m cols negs force gs limit) ++ "
-            f"enc_opt (enc_pair enc_nat enc_q) (select {gq(Fraction(case['constraint_weight']))} "
-            f"(({objs}) : list Q) (({gammas}) : list (list Q)))")
+            f"enc_opt (enc_pair enc_nat enc_q) (select {cw} "
+            f"(({objs}) : list Q) (({gammas}) : list (list Q))) ++ {fit}")
+
+
+KIND = {"DemographicParity": "DP", "TruePositiveRateParity": "TPR", "FalsePositiveRateParity": "FPR",
+        "EqualizedOdds": "EO", "ErrorRateParity": "ERP"}
+
+
+def _xrows(case):
+    if case.get("x2") is not None:
+        return [(a, b) for a, b in zip(case["x"], case["x2"])]
+    return [(a,) for a in case["x"]]
+
+
+def _ratio(case):
+    return Fraction(case["bound"]["ratio_bound"]) if "ratio_bound" in case["bound"] else Fraction(1)
 
 
 def decode(case, zs):
@@ -317,6 +361,18 @@ def decode(case, zs):
     res = {"good_basis": d.bool(), "true_dim_pos": d.bool(), "m": d.nat(), "n_units": d.opt(d.z),
            "grid": d.opt(lambda: d.list(lambda: d.list(d.q))),
            "select": d.opt(lambda: (d.nat(), d.q()))}
+    reg = case["moment"] == "BoundedGroupLoss"
+    if d.z() == 0:
+        res["fit"] = None
+    else:
+        keys = d.list(d.z) if reg else d.list(lambda: (d.z(), d.z(), d.z()))
+
+        def point():
+            lam = d.list(d.q)
+            dummy = d.bool()
+            margin = Fraction(1) if reg else d.q()
+            return {"lam": lam, "dummy": dummy, "margin": margin, "obj": d.q(), "gamma": d.list(d.q)}
+        res["fit"] = {"keys": keys, "points": d.list(point), "select": d.opt(lambda: (d.nat(), d.q()))}
     d.done()
     return res
 
@@ -440,6 +496,85 @@ def compare(case, out, model):
             if b != mi and (not others or min(others) > 1e-6):
                 v.append((f"{PID}/{E}/best_idx/index-differs-from-model", f"best_idx_={b}, model {mi} with a unique "
                           f"minimum", "best_idx_ = Grid.select index when the minimum is unique", "correspondence"))
+    v += _compare_fit(case, out, model, w)
+    return v
+
+
+def _impl_keys(case, out):
+    """implementation index entries as the model's keys"""
+    if case["moment"] == "BoundedGroupLoss":
+        return [int(str(nm)[1:]) for nm in out["index"]]
+    ks = []
+    for s_, ev, g in out["index"]:
+        ks.append((1 if s_ == "+" else 0, 2 if ev == "all" else int(str(ev).split("=")[1]), int(str(g)[1:])))
+    return ks
+
+
+def _compare_fit(case, out, model, w):
+    """(7) the Gallina fit loop (model grid -> signed weights -> relabel / reweight -> exact learner -> records ->
+    select) against objectives_ / gammas_ per grid point and the loss value at best_idx_"""
+    v = []
+    E = "GridSearch.fit"
+    fit = model.get("fit")
+    if fit is None:
+        v.append((f"{PID}/model/fit-loop/no-grid", "the fit-loop model produced no grid", "model grid exists",
+                  "correspondence"))
+        return v
+    try:
+        perm = [fit["keys"].index(k) for k in _impl_keys(case, out)]
+    except ValueError:
+        perm = None
+    if perm is None or sorted(perm) != list(range(len(fit["keys"]))):
+        v.append((f"{PID}/{E}/gammas/index-differs-from-fit-model", f"implementation index {out['index']} model keys "
+                  f"{fit['keys']}", "constraint index = Moments.index as a set", "correspondence"))
+        return v
+    pts = fit["points"]
+    if len(pts) != len(out["objectives"]) or len(pts) != len(out["gammas"]):
+        v.append((f"{PID}/{E}/objectives/count-differs-from-fit-model", f"{len(out['objectives'])} records, model "
+                  f"{len(pts)}", "one record per multiplier vector", "correspondence"))
+        return v
+    strong = True
+    for i, pt in enumerate(pts):
+        lam_i, gam_i, obj_i = out["lambdas"][i], out["gammas"][i], out["objectives"][i]
+        if len(gam_i) != len(perm) or len(lam_i) != len(perm):
+            v.append((f"{PID}/{E}/gammas/length-differs-from-fit-model", f"grid point {i}: {len(gam_i)} entries",
+                      "gammas_ column has one entry per index entry", "correspondence"))
+            return v
+        if any(not num_close(lam_i[j], pt["lam"][perm[j]]) for j in range(len(perm))):
+            v.append((f"{PID}/{E}/lambda_vecs/alignment-differs-from-fit-model", f"grid point {i}: implementation "
+                      f"{lam_i} (index {out['index']}), model {[str(q) for q in pt['lam']]} (keys {fit['keys']})",
+                      "multipliers aligned with the constraint index by label", "correspondence"))
+            return v
+        same = num_close(obj_i, pt["obj"]) and all(num_close(gam_i[j], pt["gamma"][perm[j]])
+                                                   for j in range(len(perm)))
+        if same:
+            continue
+        L_impl = obj_i + sum(a * b for a, b in zip(lam_i, gam_i))
+        L_model = pt["obj"] + sum(a * b for a, b in zip(pt["lam"], pt["gamma"]))
+        if case["moment"] == "BoundedGroupLoss":
+            L_impl -= obj_i
+            L_model -= pt["obj"]
+        if pt["margin"] > Fraction(1, 10 ** 9):
+            v.append((f"{PID}/{E}/records/differ-from-fit-model", f"grid point {i} (lambda={lam_i}): recorded "
+                      f"objective {obj_i} gamma {gam_i}; the fit-loop model (exact learner, vote margin "
+                      f"{float(pt['margin'])}) gives objective {float(pt['obj'])} gamma "
+                      f"{[float(pt['gamma'][perm[j]]) for j in range(len(perm))]}",
+                      "objectives_[i], gammas_[i] = GridSearch.fit_cls / fit_loss at grid point i", "correspondence"))
+            return v
+        strong = False       # a tied vote: the trained predictor is not unique, its Lagrangian value is
+        if not num_close(L_impl, L_model, atol=1e-8, rtol=1e-8):
+            v.append((f"{PID}/{E}/records/lagrangian-differs-from-fit-model", f"grid point {i} (lambda={lam_i}, tied "
+                      f"vote): objective + lambda.gamma is {L_impl}, model {float(L_model)}",
+                      "objective + lambda.gamma at grid point i = value of the model's best response", "correspondence"))
+            return v
+    b = out["best_idx"]
+    if strong and fit["select"] is not None and 0 <= b < len(out["gammas"]):
+        mi, mv = fit["select"]
+        rec_b = _loss(w, out["objectives"][b], out["gammas"][b])
+        if not num_close(rec_b, mv, atol=1e-8, rtol=1e-8):
+            v.append((f"{PID}/{E}/best_idx/loss-differs-from-fit-model", f"recorded loss at best_idx_={b} is {rec_b}, "
+                      f"the fit-loop model selects index {mi} with loss {float(mv)}",
+                      "loss at best_idx_ = minimum of the model's trade-off losses", "correspondence"))
     return v
 
 
@@ -454,6 +589,11 @@ def tags(case, out, model):
         t.append("empty-cell")
     if model is not None and model.get("n_units") is not None:
         t.append(f"n_units:{min(model['n_units'], 10)}{'+' if model['n_units'] >= 10 else ''}")
+    if any(out.get("dummy", [])):
+        t.append("dummy-classifier")
+    if model is not None and model.get("fit"):
+        t.append("fit-model:tied-vote" if any(p["margin"] == 0 for p in model["fit"]["points"])
+                 else "fit-model:no-tie")
     return t
 
 
